@@ -22,7 +22,7 @@ def main():
         for mx in range(0, 3 if t == 'quick' else 5):
             for l1 in range(0, min(mx, 2) + 1):
                 jobs.append(Job(P + 'VerifC18Limit', (kind, mx, l1)))
-    N = 5 if t == 'quick' else 8
+    N = 5 if t == 'quick' else 7
     for n in range(0, N + 1):
         for mx in ((2,) if t == 'quick' else (0, 2, 3)):
             jobs.append(Job(P + 'VerifC18Arbitrary', (0, n, mx), cfg={'unwind': 16}))
